@@ -872,6 +872,9 @@ pub struct Args {
     pub only: Option<u64>,
     pub profile: String,
     pub scale: f64,
+    /// process only cases with k % kmod == krem (sharding across processes)
+    pub kmod: u64,
+    pub krem: u64,
     pub rest: Vec<String>,
 }
 
@@ -890,6 +893,8 @@ impl Args {
                 "release".into()
             },
             scale: 1.0,
+            kmod: 1,
+            krem: 0,
             rest: vec![],
         };
         let v: Vec<String> = std::env::args().skip(1).collect();
@@ -919,6 +924,14 @@ impl Args {
                 }
                 "--only" => {
                     a.only = nxt(i).parse().ok();
+                    i += 1
+                }
+                "--kmod" => {
+                    a.kmod = nxt(i).parse().unwrap_or(1).max(1);
+                    i += 1
+                }
+                "--krem" => {
+                    a.krem = nxt(i).parse().unwrap_or(0);
                     i += 1
                 }
                 "--scale" => {
@@ -978,6 +991,7 @@ impl Runner {
         let chunk = (n / (threads as u64 * 16)).clamp(1, 4096);
         let seed = self.args.seed;
         let only = self.args.only;
+        let (kmod, krem) = (self.args.kmod, self.args.krem);
         let prop = self.args.prop.clone();
         std::thread::scope(|sc| {
             let mut hs = vec![];
@@ -1001,6 +1015,9 @@ impl Runner {
                                         if o != k {
                                             continue;
                                         }
+                                    }
+                                    if k % kmod != krem {
+                                        continue;
                                     }
                                     acc.k = k;
                                     let mut rng = Rng::for_case(seed, name, k);
